@@ -1694,10 +1694,12 @@ class CodeGenerator(NodeVisitor):
 
     def visit_Const(self, node: nodes.Const, frame: Frame) -> None:
         val = node.as_const(frame.eval_ctx)
-        if isinstance(val, float):
-            self.write(str(val))
-        else:
-            self.write(repr(val))
+        text = str(val) if isinstance(val, float) else repr(val)
+        # a negative number is a unary expression in Python: keep it one
+        # operand wherever it is written ((-3) ** x, not -3 ** x)
+        if text.startswith("-"):
+            text = f"({text})"
+        self.write(text)
 
     def visit_TemplateData(self, node: nodes.TemplateData, frame: Frame) -> None:
         try:
